@@ -596,6 +596,20 @@ func checkC15(c *ctx) {
 		r.eval(fmt.Sprintf("%s|%016x", cs.Kind, fnv64([]byte(cs.cfgText()+"|"+cs.recsText()))), nt)
 	}
 	kinds := []string{"bai", "csi", "tbx"}
+	// corpus: a CSI reference that uses EVERY bin of its geometry (bins 0..8 of (4,1)) plus the
+	// statistics pseudo-bin: nBins = binLimit + 1 (fixes/C15-1)
+	{
+		cs := &c04Case{Kind: "csi", MinShift: 4, Depth: 1, Version: 2, Sorted: true, Strategy: "adjacent"}
+		off := int64(100)
+		for _, iv := range [][2]int{{0, 5}, {10, 20}, {16, 21}, {32, 37}, {48, 53}, {64, 69}, {80, 85}, {96, 101}, {112, 117}} {
+			cs.Recs = append(cs.Recs, c04Rec{Rid: 0, Start: iv[0], End: iv[1], Placed: true, Mapped: true, CB: off, CE: off + 10})
+			off += 10
+		}
+		cs.Queries = []c04Query{{0, 0, 126}, {0, 112, 113}, {0, 15, 16}}
+		cs.c15Run(c, d, &impl)
+		count(cs)
+		r.hist("corpus.csi-all-bins")
+	}
 	for i := 0; i < 8; i++ {
 		for _, k := range kinds {
 			cs := g.c15Special(k, i)
